@@ -115,6 +115,7 @@ class ARig:
         lib.reset_library()
         self.chooser = chooser or Chooser()
         self.loop = VLoop(self.chooser, window=window)
+        self.loop.timer_choices_enabled = False  # handshake on the default schedule
         self.net = VNet(self.loop)
         self.peer = SimPeer()
         self.net.add_peer(SPA_ADDR, self.peer)
@@ -143,6 +144,7 @@ class ARig:
         st.replace_status_block_segment = monitor
         self.peer.set_block(SPA_BLOCK)
         st.set_status_block(CLIENT_BLOCK)
+        self.loop.timer_choices_enabled = True
 
     async def _on_event(self, event, **kw):
         self.events.append(event)
